@@ -524,6 +524,123 @@ def pinned_case(ctx, kex, cls, entry, hostalg, second, sample):
         lab.close()
 
 
+def wire_kex_choice(lab, index=0):
+    """(method RFC 4253 section 7.1 selects, client's list, server's list) read off both KEXINITs: the first
+    name on the client's list that the server also lists; pseudo-algorithms are not methods."""
+    exs = kexlab.exchanges(lab.events(), "c")
+    if index >= len(exs) or "i_out" not in exs[index] or "i_in" not in exs[index]:
+        return None, None, None
+
+    def names(payload):
+        (first,), _ = sshsig.read_strings(payload[17:], 1)
+        return [x for x in first.decode("ascii", "replace").split(",")
+                if x and not x.startswith("ext-info-") and not x.startswith("kex-strict-")]
+
+    mine, theirs = names(exs[index]["i_out"]["payload"]), names(exs[index]["i_in"]["payload"])
+    for a in mine:
+        if a in theirs:
+            return a, mine, theirs
+    return None, mine, theirs
+
+
+def kexorder_case(ctx, cell, client_order, server_order, hostalg, sample):
+    """Client and server rank their common kex methods differently: both must run the client's first method
+    that the server supports, agree on K/H/session id, and a re-exchange must complete."""
+    rng = ctx.rng
+    desc = dict(stratum="honest-kex-order", cell=cell, client_order=list(client_order) if client_order else "default",
+                server_order=list(server_order) if server_order else "default", hostkey=hostalg)
+    ctx.case(("kexorder", cell, tuple(client_order or ()), tuple(server_order or ()), hostalg), sample=desc if sample else None)
+    lab = kexlab.Lab(rng, None, hostalg)
+    if client_order:
+        lab.tc.get_security_options().kex = list(client_order)
+    if server_order:
+        lab.ts.get_security_options().kex = list(server_order)
+    try:
+        ok = lab.start(timeout=90)
+        want, mine, theirs = wire_kex_choice(lab, 0)
+        if want is None:
+            ctx.inconclusive("could not read a common kex method off the KEXINITs: %r" % desc)
+            return
+        wit = dict(case=desc, expected_method=want, client_list=mine, server_list=theirs,
+                   client_exc=repr(lab.pair.client_exc), server_exc=repr(lab.pair.server_exc))
+        if not ok:
+            ctx.violation("honest handshake failed (peers rank common kex methods differently): %s" % sig_of(lab),
+                          "client and server share %s (and more) but the handshake did not complete" % want, wit)
+            return
+        ctx.count("honest_handshakes_completed")
+        lab.kex = want
+        r = rekey(lab, rng.choice("cs"), 90)
+        if r == "timeout":
+            ctx.inconclusive("rekey did not finish within 90 s (%r)" % desc)
+            return
+        if r is not None:
+            ctx.violation("honest rekey failed: %s" % sig_of(lab), "renegotiate_keys() on an unmodified pair raised",
+                          dict(wit, exc=repr(r)))
+            return
+        ctx.count("honest_rekeys_completed")
+        if not pair.wait_for(lambda: len(lab.kh.calls["c"]) == 2 and len(lab.kh.calls["s"]) == 2, 30):
+            ctx.inconclusive("exchange bookkeeping did not settle (%r)" % desc)
+            return
+        engine = paramiko.Transport._kex_info[want]
+        for side in ("c", "s"):
+            for i, rec_ in enumerate(lab.kh.calls[side]):
+                ctx.count("kexorder.engine_checks")
+                if rec_["engine"] is not engine:
+                    ctx.violation("kex method run is not the client's first method that the server supports",
+                                  "%s ran %s in exchange %d, RFC 4253 7.1 selects %s"
+                                  % ("client" if side == "c" else "server", rec_["engine"].__name__, i, want), wit)
+                    return
+        ctx.count("kexorder.sessions")
+        ctx.count("kexorder.%s" % cell)
+        if want != mine[0] or want != theirs[0]:
+            ctx.count("kexorder.sessions_where_the_first_choices_differ")
+        judge_exchanges(ctx, lab, desc, 2)
+    finally:
+        lab.close()
+
+
+GEX_SIZES = {1024: "1", 2048: "14", 4096: "16", 8192: "18"}
+
+
+def gexsize_case(ctx, kex, bits, hostalg, nrekeys, sample):
+    """Group exchange against a server whose moduli file holds exactly one group of `bits` bits (1024 and 8192
+    are the smallest and the largest size a client accepts)."""
+    rng = ctx.rng
+    desc = dict(stratum="honest-gex-size", kex=kex, group_bits=bits, hostkey=hostalg, rekeys=nrekeys)
+    ctx.case(("gexsize", kex, bits, hostalg, nrekeys), sample=desc if sample else None)
+    with kexlab.server_moduli((GEX_SIZES[bits],)):
+        lab = kexlab.Lab(rng, kex, hostalg)
+        try:
+            if not lab.start(timeout=240):
+                ctx.violation("honest handshake failed (group exchange with a %d-bit group): %s" % (bits, sig_of(lab)),
+                              "an unmodified pair did not complete a group exchange whose only available group has %d bits" % bits,
+                              dict(case=desc, client_exc=repr(lab.pair.client_exc), server_exc=repr(lab.pair.server_exc)))
+                return
+            ctx.count("honest_handshakes_completed")
+            for _ in range(nrekeys):
+                r = rekey(lab, rng.choice("cs"), 240)
+                if r == "timeout":
+                    ctx.inconclusive("rekey did not finish within 240 s (%r)" % desc)
+                    return
+                if r is not None:
+                    ctx.violation("honest rekey failed: %s" % sig_of(lab), "renegotiate_keys() on an unmodified pair raised",
+                                  dict(case=desc, exc=repr(r)))
+                    return
+                ctx.count("honest_rekeys_completed")
+            # the group that travelled has the size under test
+            grp = lab.msgs("c", "in", [31])
+            (pbody, _g), _ = sshsig.read_strings(grp[0]["payload"][1:], 2)
+            if sshsig.to_int(pbody).bit_length() != bits:
+                ctx.inconclusive("server sent a %d-bit group, wanted %d (%r)" % (sshsig.to_int(pbody).bit_length(), bits, desc))
+                return
+            ctx.count("gexsize.sessions")
+            ctx.count("gexsize.%d" % bits)
+            ctx.count("gexsize.%d.exchanges" % bits, 1 + nrekeys)
+            judge_exchanges(ctx, lab, desc, 1 + nrekeys)
+        finally:
+            lab.close()
+
+
 GEX_RANGES = (
     (512, 2048, 8192), (1024, 2048, 16384), (2048, 2048, 2048), (4096, 4096, 4096), (1024, 3072, 8192),
     (512, 4096, 16384), (2048, 4096, 8192), ("old", 2048), ("old", 4096), ("old", 1024),
@@ -732,6 +849,36 @@ def run(ctx):
                               and e["server"] == entry["server"]]
                     second = others[(pi + ctx.seed) % len(others)] if others and (pi + ctx.seed) % 2 else None
                     pinned_case(ctx, kex, cls, entry, kexlab.HOSTALGS[(pi + ctx.seed) % 7], second, sample=False)
+        # ---- honest, client and server rank the kex methods differently ---------------------
+        K = kexlab.KEXES
+        for ki, M in enumerate(K):
+            others = [x for x in K if x != M]
+            rot = others[(ki + ctx.seed) % 9:] + others[:(ki + ctx.seed) % 9]
+            cells = [
+                # client puts M first (plus a few more), server has its default order
+                ("client_first.%s" % M, [M] + rot[:3], None),
+                # server puts M first, client lists the methods in reverse default order
+                ("server_first.%s" % M, list(reversed(paramiko.Transport._preferred_kex)), [M] + rot),
+                # lists that share exactly two methods, ranked oppositely
+                ("two_common.%s" % M, [M, rot[0], rot[4]], [rot[4], rot[1], M]),
+            ]
+            if not ctx.quick:
+                cells += [("client_first_full.%s" % M, [M] + rot, None),
+                          ("server_first_default_client.%s" % M, None, [M] + rot),
+                          ("both_first.%s" % M, [M] + rot, [rot[2], M] + [x for x in rot if x != rot[2]])]
+            for ci, (cell, co, so) in enumerate(cells):
+                m += 1
+                if not ctx.mine(m):
+                    continue
+                kexorder_case(ctx, cell, co, so, kexlab.HOSTALGS[(ki + ci + ctx.seed) % 7], sample=False)
+        # ---- honest group exchange with a single group of 1024 / 2048 / 4096 / 8192 bits ----
+        for gi, gk in enumerate(("diffie-hellman-group-exchange-sha256", "diffie-hellman-group-exchange-sha1")):
+            for bi, bits in enumerate((1024, 8192, 2048, 4096)):
+                m += 1
+                if not ctx.mine(m):
+                    continue
+                nre = 1 if (gi == 0 or not ctx.quick) else 0
+                gexsize_case(ctx, gk, bits, kexlab.HOSTALGS[(bi + gi * 4 + ctx.seed) % 7], nre, sample=False)
         # ---- honest group exchange with non-default client requests ------------------------
         for gi, gk in enumerate(("diffie-hellman-group-exchange-sha1", "diffie-hellman-group-exchange-sha256")):
             for ri, spec in enumerate(GEX_RANGES):
@@ -762,6 +909,17 @@ def run(ctx):
                         continue
                     corrupt_case(ctx, kex, alg, field, ex, sample=n < 2)
                     n += 1
+    ctx.require("kexorder.sessions", 25)
+    ctx.require("kexorder.engine_checks", 100)
+    ctx.require("kexorder.sessions_where_the_first_choices_differ", 15)
+    for M_ in kexlab.KEXES:
+        ctx.require("kexorder.client_first.%s" % M_, 1)
+        ctx.require("kexorder.server_first.%s" % M_, 1)
+    ctx.require("gexsize.sessions", 8)
+    for b_ in (1024, 2048, 4096, 8192):
+        ctx.require("gexsize.%d" % b_, 2)
+    ctx.require("gexsize.1024.exchanges", 3)
+    ctx.require("gexsize.8192.exchanges", 3)
     ctx.require("pinned.sessions", 25)
     for c_ in kexpins.CLASSES:
         ctx.require("pinned.%s" % c_, 3)
